@@ -72,6 +72,8 @@ type chain struct {
 	Gt     int
 	Eq     int // -1: none; else the chain continues with Or("v = ?", Eq)
 	Lone   bool // the chain's only condition is Or("v = ?", Eq)
+	Ne     int  // -1: none; else the chain continues (after the Or) with Where("v <> ?", Ne)
+	Handle bool // FindInBatches runs on a reusable handle carrying three constant orderings; its callback uses the handle again
 	Order  string // "" asc desc
 	Calls  []call
 	Scope  string // how the condition is supplied: "" Where; plain | session | withctx: through a Scopes function
@@ -95,6 +97,9 @@ func (c chain) apply(db *gorm.DB) *gorm.DB {
 		}
 		if c.Eq >= 0 {
 			tx = tx.Or("v = ?", c.Eq)
+			if c.Ne >= 0 {
+				tx = tx.Where("v <> ?", c.Ne)
+			}
 		}
 	}
 	switch c.Order {
@@ -216,7 +221,7 @@ func (e *env) observe(c chain, batchSizes []int) hx.M {
 		o["count_find"], o["count_find_err"] = ids, ec(res.Error)
 	}
 	// Count (without limit / offset), single-record finders (no order/limit/offset of the user's)
-	bare := chain{CondOn: c.CondOn, Gt: c.Gt, Eq: c.Eq, Lone: c.Lone, Scope: c.Scope}
+	bare := chain{CondOn: c.CondOn, Gt: c.Gt, Eq: c.Eq, Lone: c.Lone, Ne: c.Ne, Scope: c.Scope}
 	{
 		var n int64
 		res := bare.apply(e.db).Model(&R{}).Count(&n)
@@ -245,14 +250,23 @@ func (e *env) observe(c chain, batchSizes []int) hx.M {
 		o["scan_prim"], o["scan_prim_err"] = n, ec(res.Error)
 	}
 	// FindInBatches (no user Order): limit/offset calls apply
-	bc := chain{CondOn: c.CondOn, Gt: c.Gt, Eq: c.Eq, Lone: c.Lone, Calls: c.Calls, Scope: c.Scope}
+	bc := chain{CondOn: c.CondOn, Gt: c.Gt, Eq: c.Eq, Lone: c.Lone, Ne: c.Ne, Calls: c.Calls, Scope: c.Scope}
 	bobs := []hx.M{}
 	for _, bs := range batchSizes {
 		var out []R
 		batches := [][]int64{}
-		res := bc.apply(e.db).FindInBatches(&out, bs, func(tx *gorm.DB, batch int) error {
+		base := bc.apply(e.db)
+		if c.Handle {
+			base = base.Order("s IS NULL").Order("s IS NULL").Order("s IS NULL").Session(&gorm.Session{})
+		}
+		res := base.FindInBatches(&out, bs, func(tx *gorm.DB, batch int) error {
 			if batch > 200 {
 				return errors.New("more than 200 batches: the batch cursor does not advance")
+			}
+			if c.Handle { // other reads derived from the same handle while the batches are running
+				var r1, r2 R
+				base.First(&r1)
+				base.Last(&r2)
 			}
 			ids := []int64{}
 			for _, r := range out {
@@ -295,8 +309,8 @@ func callsJ(c []call) []hx.M {
 }
 
 func event(caseNo int, t []trow, c chain, o hx.M) hx.M {
-	return hx.M{"ev": "Read", "case": caseNo, "table": tableJ(t), "cond": hx.M{"on": c.CondOn, "gt": c.Gt, "eq": c.Eq, "lone": c.Lone}, "order": c.Order,
-		"calls": callsJ(c.Calls), "scope": c.Scope, "obs": o}
+	return hx.M{"ev": "Read", "case": caseNo, "table": tableJ(t), "cond": hx.M{"on": c.CondOn, "gt": c.Gt, "eq": c.Eq, "lone": c.Lone, "ne": c.Ne}, "order": c.Order,
+		"calls": callsJ(c.Calls), "scope": c.Scope, "handle": c.Handle, "obs": o}
 }
 
 func init() {
@@ -335,7 +349,7 @@ func grid(args []string) error {
 		}
 		for lim := 0; lim <= *maxb; lim++ { // 0 = absent
 			for off := -1; off <= *maxb; off++ { // -1 = absent
-				c := chain{Eq: -1}
+				c := chain{Eq: -1, Ne: -1}
 				if lim > 0 {
 					c.Calls = append(c.Calls, call{"limit", lim})
 				}
@@ -385,10 +399,13 @@ func random(args []string) error {
 				return err
 			}
 		}
-		c := chain{CondOn: r.Intn(2) == 0, Gt: r.Intn(7), Order: []string{"", "asc", "desc"}[r.Intn(3)], Scope: []string{"", "", "plain", "session", "withctx"}[r.Intn(5)], Eq: -1}
+		c := chain{CondOn: r.Intn(2) == 0, Gt: r.Intn(7), Order: []string{"", "asc", "desc"}[r.Intn(3)], Scope: []string{"", "", "plain", "session", "withctx"}[r.Intn(5)], Eq: -1, Ne: -1, Handle: r.Intn(4) == 0}
 		if c.CondOn && c.Scope == "" && r.Intn(3) == 0 {
 			c.Eq = r.Intn(7)
 			c.Lone = r.Intn(3) == 0
+			if !c.Lone && r.Intn(2) == 0 {
+				c.Ne = r.Intn(7)
+			}
 		}
 		for k := 0; k < r.Intn(5); k++ {
 			v := 1 + r.Intn(8)
